@@ -125,6 +125,11 @@ Print Assumptions c19_cleanup.
      most once" and "the removal of a stream is seen at most once", over the running observer state of spec_from
      (c19_spec_implies_once: they are conjuncts of spec_C19); rests on c19_flags_irreversible: in every schedule a
      stream object never disappears from the heap and its queue.Close / removeStream flags never go back.
+   * c19_model_satisfies_spec_events (Proofs/StreamPoolHist.v) — the whole third conjunct [spec_events] of spec_C19:
+     per stream the MsgSend entry / return log alternates (never a second MsgSend entered on a stream while one
+     has not returned = one writer per stream; every return belongs to the message in flight), and the entries
+     of the log are exactly the takes the FIFO clause reads.  Rests on c19_one_writer_all_schedules (every label
+     sequence, not only [expand]ed ones).
    Still missing (state-level counterparts: c19_fifo, c19_index_consistent, c19_cleanup):
    * FIFO over the MsgSend log (needs an invariant over the callers' pending programs: every message still to be
      written is not older than what any target stream has accepted, and no program survives the operation that
@@ -162,6 +167,44 @@ Example c19_once_nonvacuous :
       (model_hist (mkConfig 1 4) [HAddStream 1 2 [7] false; HReadErr 1; HStreams [7]; HReadErr 1]) =
   [([], []); ([1], [(1, [7])]); ([], []); ([], [])].
 Proof. vm_compute. reflexivity. Qed.
+
+(* ---- one writer per stream: the MsgSend entry / return log ------------------------------------------------ *)
+(* in EVERY schedule (label sequence) from a consistent state, the MsgSend events of stream sid lead from the
+   message in flight before to the message in flight after: an entry only when nothing is in flight, a return only
+   of the message in flight *)
+Theorem c19_one_writer_all_schedules : forall ls s sid, idx_inv s ->
+  alt_run (infl s sid) (events_of sid (run_events s ls)) = Some (infl (run s ls) sid).
+Proof. exact run_events_alt. Qed.
+Print Assumptions c19_one_writer_all_schedules.
+
+(* the model's harness-level histories satisfy the event clause of spec_C19, for all configurations and operations *)
+Theorem c19_model_satisfies_spec_events : forall c ops, spec_events (model_hist c ops) = true.
+Proof. exact model_hist_events_ok. Qed.
+Print Assumptions c19_model_satisfies_spec_events.
+
+Theorem c19_spec_implies_events : forall ops observed, spec_C19 ops observed = true -> spec_events observed = true.
+Proof. exact spec_implies_events. Qed.
+
+(* property language: in an observed history accepted by the clause, after every prefix of a stream's MsgSend log
+   the number of calls entered and not yet returned is 0 or 1 *)
+Theorem c19_at_most_one_msgsend_in_flight : forall observed sid pre post,
+  spec_events observed = true ->
+  events_of sid (flat_map o_events observed) = pre ++ post ->
+  (count_ev true pre = count_ev false pre \/ count_ev true pre = S (count_ev false pre))%nat.
+Proof. exact events_at_most_one_in_flight. Qed.
+Print Assumptions c19_at_most_one_msgsend_in_flight.
+
+(* the clause is exercised by the model (entries and returns occur), and it rejects a log in which a second MsgSend
+   is entered on stream 1 while message 2 is still in flight (two write loops on one queue) as well as a return of a
+   message that is not the one in flight *)
+Example c19_events_nonvacuous :
+  let ops := [HAddStream 1 2 [7] false; HBroadcast [7]; HBroadcast [7]; HRelease 1 true; HRelease 1 false] in
+  map o_events (model_hist (mkConfig 1 2) ops) =
+    [[]; [(1, (1, true))]; []; [(1, (1, false)); (1, (2, true))]; [(1, (2, false))]]
+  /\ stream_events_ok [(1, (1, true)); (1, (2, true)); (1, (1, false))] 1 = false
+  /\ stream_events_ok [(1, (1, true)); (2, (2, true)); (1, (1, false)); (2, (2, false))] 1 = true
+  /\ stream_events_ok [(1, (1, true)); (1, (2, false))] 1 = false.
+Proof. vm_compute. repeat split. Qed.
 
 Theorem c19_spec_implies_static : forall ops observed,
   spec_C19 ops observed = true -> forallb obs_static_ok observed = true.
